@@ -84,7 +84,7 @@ func TestDnsAdversarial(t *testing.T) {
 		case diff != "":
 			report(kind, key, diff, b)
 			return nil
-		case alloc > uint64(64*len(b)+1<<20) && len(b) < 2000:
+		case alloc > uint64(256*len(b)+(128<<10)) && len(b) < 4000:
 			report(kind, key, fmt.Sprintf("decoding %d bytes allocated %d bytes", len(b), alloc), b)
 		case d > 2*time.Second:
 			report(kind, key, fmt.Sprintf("decoding %d bytes took %v", len(b), d), b)
@@ -129,9 +129,12 @@ func TestDnsAdversarial(t *testing.T) {
 		}
 		for _, src := range [][]byte{b, cb} {
 			for pos := 4; pos < 12 && pos < len(src); pos++ {
-				for _, delta := range []int{1, -1, 0x40} {
+				for _, delta := range []int{1, -1, 0x40, 0xff} {
 					m := append([]byte{}, src...)
 					m[pos] = byte(int(m[pos]) + delta)
+					if delta == 0xff {
+						m[pos] = 0xff // counts of 0xffxx / 0xxxff: nothing may be sized from an untrusted count
+					}
 					if dm := check("count", key, m); dm != nil {
 						drive("count", key, m)
 					}
@@ -150,6 +153,55 @@ func TestDnsAdversarial(t *testing.T) {
 			}
 			if dm := check("valid", key, src); dm != nil {
 				drive("valid", key, src)
+			}
+		}
+	}
+	// a 12-byte message whose four counts are all 0xffff
+	check("counts-ffff", "hdr", []byte{0, 0, 0x81, 0x80, 0xff, 0xff, 0xff, 0xff, 0xff, 0xff, 0xff, 0xff})
+	// (c') HTTPS / SVCB parameters with every key and awkward value lengths, as the last thing in the message and
+	// followed by another record (RFC 9460: ipv4hint is a multiple of 4, ipv6hint of 16, port is 2 bytes)
+	for _, typ := range []int{65, 64} {
+		for _, key := range []int{0, 1, 2, 3, 4, 5, 6, 7, 65535} {
+			for _, vl := range []int{0, 1, 2, 3, 4, 5, 8, 15, 16, 17, 20, 32, 36, 48} {
+				for _, follow := range []bool{false, true} {
+					val := make([]byte, vl)
+					for i := range val {
+						val[i] = byte(i + 1)
+					}
+					if key == 1 && vl > 0 { // alpn: one protocol id filling the value
+						val[0] = byte(vl - 1)
+					}
+					rd := append(u16(1), 0) // priority 1, target "."
+					rd = append(rd, u16(key)...)
+					rd = append(rd, u16(vl)...)
+					rd = append(rd, val...)
+					an := 1
+					m := []byte{0, 0, 0x81, 0x80, 0, 1, 0, byte(an), 0, 0, 0, 0}
+					if follow {
+						m[7] = 2
+					}
+					m = append(m, wName("a.bc")...)
+					m = append(m, u16(typ)...)
+					m = append(m, u16(1)...)
+					m = append(m, wRR{Owner: "a.bc", Type: typ, TTL: 60, Data: rd}.bytes()...)
+					if follow {
+						m = append(m, rrA("a.bc", 60, "192.0.2.1").bytes()...)
+					}
+					key2 := fmt.Sprintf("t%d/k%d/l%d/%v", typ, key, vl, follow)
+					dm := check("svcparam", key2, m)
+					if typ == 65 {
+						malformed := (key == 4 && vl%4 != 0) || (key == 6 && vl%16 != 0) || (key == 3 && vl < 2)
+						if malformed && dm != nil {
+							report("svcparam", key2, "an HTTPS record with a malformed hint/port parameter was decoded without error", m)
+						}
+						if !malformed && dm == nil && key != 1 {
+							report("svcparam", key2, "a well-formed HTTPS record was rejected", m)
+						}
+					}
+					if dm != nil {
+						drive("svcparam", key2, m)
+					}
+				}
 			}
 		}
 	}
